@@ -752,6 +752,10 @@ class SigmaCorrelationRule(SigmaRuleBase, ProcessingItemTrackingMixin):
             if not self.generate:
                 rule.disable_output()
 
+        # The keys of the field alias mappings are rule references too: a reference to a rule that
+        # doesn't exist must be reported like one in the rule list.
+        self.aliases.resolve_rule_references(rule_collection)
+
     def flatten_rules(
         self: Self, include_correlations: bool = True
     ) -> list[SigmaRule | SigmaCorrelationRule]:
